@@ -880,6 +880,17 @@ class Eval:
             if self.ctx.options.get("$partial") and isinstance(s, (ast.For, ast.While, ast.If, ast.Try)):
                 # lower bounds only: what was decided before this statement stands, the rest is "some value"
                 return {"V": reach}
+            if self.ctx.options.get("$lenient") and isinstance(s, ast.If) and not any(
+                    isinstance(n, ast.Name) and (isinstance(self.env.get(n.id), (Str, Match, Part, Folded, Bool, Derived)) or n.id == "$value")
+                    for n in ast.walk(s)) and not any(
+                    isinstance(x, (ast.Return, ast.Raise, ast.Break, ast.Continue, ast.Yield)) for x in ast.walk(s)):
+                # bookkeeping under a test that does not involve the string (a cache filled on first use, an index made
+                # non-negative): no outcome depends on it; what it binds is not a string
+                dep = self.mentions_str(s)
+                for n in ast.walk(s):
+                    if isinstance(n, ast.Name) and isinstance(n.ctx, ast.Store):
+                        self.env[n.id] = UNKNOWN if dep else None
+                return {"N": reach}
             if self.ctx.options.get("$lenient") and isinstance(s, (ast.Assign, ast.AugAssign, ast.AnnAssign, ast.Expr)):
                 # text-building statements of the writers (s = "{} = ".format(key.ljust(n)), s += ...) are not
                 # classified: the names they bind become UNKNOWN when they derive from the string under test (a later
